@@ -25,8 +25,14 @@ the Go file. Conventions:
   (ascending) and `GraphSpec.G.m`.
 
 Not modelled: growth policy of `append` beyond the capacity of `op.value` (Go's size-class rounding; the model doubles) —
-reachable only after a certificate overflow, which the vertex-class defect D3 of notes/C02.md causes; the mutation
-`options.CheckViability = false` of the caller's options struct.
+not reachable any more since `expandValue` records the prefix it has encoded (no stale certificate is ever extended); the
+mutation `options.CheckViability = false` of the caller's options struct.
+
+State of the Go file modelled: `graph/canonical.go` after the six `fix:` commits 87e1b96 (all class bins on the initial
+work list, `allBins`), 0bfbb07 (`expandLoop` sets `spl := j + 1` before returning worse), 0b9b2ec (one `expandValue` right
+after the initial refinement), 70aec9a (`m == 0` shortcut only with a single class; first leaf always accepted:
+`comp == 1 || count == 1`), 4266c5c (`classLoop` sorts every class inside `order`), 4ea0e84 (`h2Best`: on the best-leaf
+path a child is skipped only if an element of its orbit in `currentBestOrbits` has already been visited at this node).
 -/
 namespace CanonF
 
@@ -168,7 +174,8 @@ structure OP where
 abbrev Classes := Option (List (List Nat))
 
 /-- the loop over the vertex classes shared by `NewOrderedPartition` and `Reset`:
-`for i := range vc { for j := range vc[i] { v := vc[i][j]; order[index] = v; inCell[v] = i; index++ }; binDividers[i] = index }` -/
+`for i := range vc { binStart := index; for j := range vc[i] { v := vc[i][j]; order[index] = v; inCell[v] = i; index++ };
+ints.Sort(order[binStart:index]); binDividers[i] = index }` -/
 def classLoopInner (i : Nat) (v : Nat) (st : Sl Nat × Sl Nat × Nat) : Outcome (Sl Nat × Sl Nat × Nat) :=
   let (order, inCell, index) := st
   match order.set index v with
@@ -183,10 +190,16 @@ def classLoopInner (i : Nat) (v : Nat) (st : Sl Nat × Sl Nat × Nat) : Outcome 
 def classLoop : List (List Nat) → Nat → (Sl Nat × Sl Nat × Sl Nat × Nat) → Outcome (Sl Nat × Sl Nat × Sl Nat × Nat)
   | [], _, st => .ok st
   | c :: cs, i, (order, inCell, bd, index) =>
+    -- binStart := index
     match forList (classLoopInner i) c (order, inCell, index) with
-    | .ok (order, inCell, index) =>
-      match bd.set i index with
-      | .ok bd => classLoop cs (i + 1) (order, inCell, bd, index)
+    | .ok (order, inCell, index') =>
+      -- ints.Sort(order[binStart:index])
+      match order.sortRange index index' with
+      | .ok order =>
+        match bd.set i index' with
+        | .ok bd => classLoop cs (i + 1) (order, inCell, bd, index')
+        | .panic => .panic
+        | .outOfFuel => .outOfFuel
       | .panic => .panic
       | .outOfFuel => .outOfFuel
     | .panic => .panic
@@ -195,6 +208,9 @@ def classLoop : List (List Nat) → Nat → (Sl Nat × Sl Nat × Sl Nat × Nat) 
 /-- `order[i] = i` for `i < n` -/
 def identLoop (n : Nat) (order : Sl Nat) : Outcome (Sl Nat) :=
   forRange (fun i o => o.set i i) n 0 order
+
+/-- `for i := range binsToCheck { binsToCheck[i] = i }` -/
+def allBins (b : Sl Int) : Sl Int := ⟨b.data.mapIdx (fun i v => if i < b.len then (i : Int) else v), b.len⟩
 
 /-- `NewOrderedPartition(n, m, vertexClasses)`; `none` is the Go `nil` returned for `n == 0` -/
 def newOrderedPartition (n m : Nat) (vc : Classes) : Outcome (Option OP) :=
@@ -228,8 +244,9 @@ def newOrderedPartition (n m : Nat) (vc : Classes) : Outcome (Option OP) :=
       | .outOfFuel => .outOfFuel
   match r with
   | .ok (order, inCell, bd) =>
-    -- binAges := make([]int, len(binDividers), n) (zero), binsToCheck := make([]int, 1, n); [0] = 0, value := make([]int, 0, m)
-    .ok (some { order := order, binDividers := bd, binAges := Sl.mk' bd.len n 0, binsToCheck := Sl.mk' 1 n 0,
+    -- binAges := make([]int, len(binDividers), n) (zero), binsToCheck := make([]int, len(binDividers), n); [i] = i,
+    -- value := make([]int, 0, m)
+    .ok (some { order := order, binDividers := bd, binAges := Sl.mk' bd.len n 0, binsToCheck := allBins (Sl.mk' bd.len n 0),
                 age := 0, value := Sl.mk' 0 m 0, spl := 0, inCell := inCell })
   | .panic => .panic
   | .outOfFuel => .outOfFuel
@@ -273,8 +290,8 @@ def reset (op : OP) (n m : Nat) (vc : Classes) : Outcome OP :=
         let ages : Sl Int := ⟨ages.data.mapIdx (fun i v => if i < ages.len then 0 else v), ages.len⟩
         let btc : Outcome (Sl Int) :=
           if n > 0 then
-            match op.binsToCheck.reslice 1 with
-            | .ok b => b.set 0 0
+            match op.binsToCheck.reslice bd.len with
+            | .ok b => .ok (allBins b)
             | o => o
           else .ok op.binsToCheck
         match btc with
@@ -379,7 +396,7 @@ def expandLoop (nb : Nbrs) (cb fl : Sl Nat) : (k : Nat) → (j : Nat) → OP →
               | .ok value =>
                 let op := { op with value := value }
                 match worseTest value cb fl with
-                | .ok true => .ok (true, op)
+                | .ok true => .ok (true, { op with spl := j + 1 })
                 | .ok false => expandLoop nb cb fl k (j + 1) op
                 | .panic => .panic
                 | .outOfFuel => .outOfFuel
@@ -1172,7 +1189,7 @@ def leafNode (n m : Nat) (s : LS) : Outcome LS :=
   let s := { s with count := s.count + 1 }
   let op := s.op
   let comp := compare op.value.toList s.currentBest.toList
-  if comp == 1 then
+  if comp == 1 || s.count == 1 then
     match s.currentBest.reslice m with
     | .ok cb =>
       let cb := cb.copyFrom op.value.toList
@@ -1254,6 +1271,40 @@ def maybeDeage (s : LS) : Outcome LS :=
     | .outOfFuel => .outOfFuel
   else .ok { s with skipDeage := false }
 
+/-- `binEnd := len(op.order); for k := 0; k < len(op.binDividers); k++ { if choicePosition < op.binDividers[k] { binEnd = op.binDividers[k]; break } }` -/
+def binEndLoop (bd : Sl Nat) (cp dflt : Nat) : (k : Nat) → (i : Nat) → Outcome Nat
+  | 0, _ => .ok dflt
+  | k+1, i =>
+    match bd.get i with
+    | .ok d => if cp < d then .ok d else binEndLoop bd cp dflt k (i + 1)
+    | .panic => .panic
+    | .outOfFuel => .outOfFuel
+
+/-- `for k := choicePosition + 1; k < binEnd; k++ { if currentBestOrbits.FindBuffered(op.order[k], space) == rep { skip } }` -/
+def orbitScan (order : Sl Nat) (rep : Nat) : (cnt : Nat) → (k : Nat) → Disjoint.DS → Outcome (Bool × Disjoint.DS)
+  | 0, _, ds => .ok (false, ds)
+  | c+1, k, ds =>
+    match order.get k with
+    | .ok v =>
+      match Disjoint.find ds v with
+      | .ok (ds, r) => if r = rep then .ok (true, ds) else orbitScan order rep c (k + 1) ds
+      | .panic => .panic
+      | .outOfFuel => .outOfFuel
+    | .panic => .panic
+    | .outOfFuel => .outOfFuel
+
+/-- Heuristic 2 on the best-leaf path: skip the child only if an element of its orbit (in `currentBestOrbits`) sits at a
+later position of the bin, i.e. has already been visited at this node. Returns the (path-compressed) union–find. -/
+def h2Best (op : OP) (ds : Disjoint.DS) (choicePosition choiceElement : Nat) : Outcome (Bool × Disjoint.DS) :=
+  match binEndLoop op.binDividers choicePosition op.order.len op.binDividers.len 0 with
+  | .ok binEnd =>
+    match Disjoint.find ds choiceElement with
+    | .ok (ds, rep) => orbitScan op.order rep (binEnd - (choicePosition + 1)) (choicePosition + 1) ds
+    | .panic => .panic
+    | .outOfFuel => .outOfFuel
+  | .panic => .panic
+  | .outOfFuel => .outOfFuel
+
 /-- `jLoop`: `for j := path[len(path)-1] - 1; j >= 0; j--`; `k = j + 1`. Returns `(true, s)` on `break stepLoop`. -/
 def jLoop (nb : Nbrs) : (k : Nat) → LS → Outcome (Bool × LS)
   | 0, s => .ok (false, s)
@@ -1279,15 +1330,12 @@ def jLoop (nb : Nbrs) : (k : Nat) → LS → Outcome (Bool × LS)
           | .ok true => jLoop nb j { s with skipDeage := true }
           | .ok false =>
             let onBest := decide (s.count > 0) && !hasPrefix s.flPath.toList prefixGo && hasPrefix s.bestPath.toList prefixGo
-            let h2b : Outcome Bool :=
-              if onBest then
-                match s.bestOrbits[choiceElement]? with
-                | some x => .ok (decide (x ≥ 0))
-                | none => .panic
-              else .ok false
+            let h2b : Outcome (Bool × Disjoint.DS) :=
+              if onBest then h2Best s.op s.bestOrbits choicePosition choiceElement else .ok (false, s.bestOrbits)
             match h2b with
-            | .ok true => jLoop nb j { s with skipDeage := true }
-            | .ok false =>
+            | .ok (true, bo) => jLoop nb j { s with bestOrbits := bo, skipDeage := true }
+            | .ok (false, bo) =>
+              let s := { s with bestOrbits := bo }
               match splitBin nb s.currentBest s.firstLeaf s.op choicePosition with
               | .ok (worse, op) =>
                 let s := { s with op := op, path := j :: prest }
@@ -1424,12 +1472,22 @@ def storeBack (_st : Storage) (s : LS) (bestRest flRest : Array Int) : Storage :
 def canonicalIsomorphAllocated (fuel : Nat) (n m : Nat) (nb : Nbrs) (op : Option OP) (st : Storage) (opts : Options) :
     Outcome (Res × Option OP × Storage) :=
   if n = 0 then .ok ({ perm := some [], orbits := none, gens := none }, op, st) else
-  if m = 0 then
+  -- `if m == 0 && len(op.binDividers) == 1` (a nil partition is dereferenced only when `m == 0`)
+  let shortcut : Outcome Bool :=
+    if m = 0 then
+      match op with
+      | none => .panic
+      | some o => .ok (o.binDividers.len == 1)
+    else .ok false
+  match shortcut with
+  | .panic => .panic
+  | .outOfFuel => .outOfFuel
+  | .ok true =>
     match edgeless n st with
     | .ok (r, st) => .ok (r, op, st)
     | .panic => .panic
     | .outOfFuel => .outOfFuel
-  else
+  | .ok false =>
   match slOf st.currentBestPath n, slOf st.currentBestPerm n, slOf st.currentBestPermInv n, dsSlice st.currentBestOrbits n with
   | .ok bestPath, .ok bestPerm, .ok bestPermInv, .ok (bestOrbits, bestRest) =>
     match slOf st.firstLeaf m, slOf st.firstLeafPermInv n, dsSlice st.firstLeafOrbits n, slOf st.firstLeafPath n with
@@ -1455,11 +1513,17 @@ def canonicalIsomorphAllocated (fuel : Nat) (n m : Nat) (nb : Nbrs) (op : Option
               if opts.checkViability && worse then
                 .ok ({ perm := none, orbits := none, gens := none }, some op, storeBack st s0 bestRest flRest)
               else
-                match mainLoop nb n m fuel worse s0 with
-                | .ok s =>
-                  .ok ({ perm := some s.bestPerm.toList, orbits := some s.flOrbits.toList,
-                         gens := some (((s.gens.toList.take s.ngens)).map Sl.toList) },
-                       some s.op, storeBack st s bestRest flRest)
+                -- `op.expandValue(neighbours, currentBest, firstLeaf)` (result ignored): the value must cover an initial
+                -- singleton prefix
+                match expandValue nb cb0 firstLeaf op with
+                | .ok (_, op) =>
+                  match mainLoop nb n m fuel worse { s0 with op := op } with
+                  | .ok s =>
+                    .ok ({ perm := some s.bestPerm.toList, orbits := some s.flOrbits.toList,
+                           gens := some (((s.gens.toList.take s.ngens)).map Sl.toList) },
+                         some s.op, storeBack st s bestRest flRest)
+                  | .panic => .panic
+                  | .outOfFuel => .outOfFuel
                 | .panic => .panic
                 | .outOfFuel => .outOfFuel
             | .panic => .panic
